@@ -15,6 +15,7 @@ import Sqfs.Proofs.TarHeaderFull
 import Sqfs.Proofs.TarFixIter
 import Sqfs.Proofs.TarFixConv
 import Sqfs.Proofs.TarSqfs2tar
+import Sqfs.Proofs.TarPaxNum
 namespace Sqfs.C04
 open Sqfs.Tar
 
@@ -378,6 +379,57 @@ theorem pax_sparse_map_replaces (pc : PaxCfg) (st : PaxState) (value : Bytes) (l
   intro v2 len2 v n hv
   refine ⟨_, by simp only [paxApply, h2, h3, if_false, if_true, hv, Bool.false_eq_true]; rfl, rfl⟩
 
+/--
+**PAX numeric values are exact or refused** (`parse_uint` / `parse_int` of lib/util/src/parse_int.c as `pax_header.c` calls them
+for `uid`, `gid`, `size`, `mtime`, `GNU.sparse.*`).  On a non-empty string of decimal digits `ds` followed by the end of the value
+or by any non-digit (the '.' of a fractional `mtime`, the ',' of a sparse map): `parse_uint` returns exactly the number the digits
+denote and the number of digits consumed whenever that number is below `(2^64 − 1) / 10 · 10`, and an error otherwise — the
+overflow test is conservative (the six largest 64-bit values are refused too), but no value is ever wrapped or truncated, however
+many leading zeros or digits there are.  `parse_int` does the same for an optional '-' and the bound `2^63 − 1`.
+-/
+theorem pax_number_exact_or_error (ds rest : Bytes) (hne : ds ≠ []) (hd : ∀ c ∈ ds, isDigit c = true)
+    (hr : ∀ c, rest.head? = some c → isDigit c = false) :
+    parseUint (ds ++ rest) = (if decVal ds < PARSE_UINT_BOUND then some (decVal ds, ds.length) else none) ∧
+    parseInt (ds ++ rest) = (if decVal ds < 0x7FFFFFFFFFFFFFFF then some (decVal ds : Int) else none) ∧
+    parseInt (45 :: (ds ++ rest)) = (if decVal ds < 0x7FFFFFFFFFFFFFFF then some (-(decVal ds : Int)) else none) := by
+  have hu := parseUint_spec ds rest hne hd hr
+  have hB : PARSE_UINT_BOUND = 18446744073709551610 := rfl
+  have key : ∀ (f : Nat → Int),
+      (match (if decVal ds < PARSE_UINT_BOUND then some (decVal ds, ds.length) else none : Option (Nat × Nat)) with
+        | none => none
+        | some (v, _) => if v ≥ 0x7FFFFFFFFFFFFFFF then none else some (f v)) =
+      (if decVal ds < 0x7FFFFFFFFFFFFFFF then some (f (decVal ds)) else none) := by
+    intro f
+    by_cases h1 : decVal ds < PARSE_UINT_BOUND
+    · by_cases h2 : decVal ds < 0x7FFFFFFFFFFFFFFF
+      · have h3 : ¬ decVal ds ≥ 0x7FFFFFFFFFFFFFFF := by omega
+        simp only [h1, h2, h3, if_true, if_false]
+      · have h3 : decVal ds ≥ 0x7FFFFFFFFFFFFFFF := by omega
+        simp only [h1, h2, h3, if_true, if_false]
+    · have h2 : ¬ decVal ds < 0x7FFFFFFFFFFFFFFF := by omega
+      simp only [h1, h2, if_false]
+  refine ⟨hu, ?_, ?_⟩
+  · cases ds with
+    | nil => exact absurd rfl hne
+    | cons c t =>
+      have hc : isDigit c = true := hd c (by simp)
+      have h45 : c ≠ 45 := by intro h; subst h; revert hc; decide
+      rw [List.cons_append] at hu ⊢
+      rw [parseInt_pos c _ h45, hu]
+      exact key (fun v => (v : Int))
+  · rw [parseInt_neg, hu]
+    exact key (fun v => -(v : Int))
+
+/--
+**The PAX 0.1 sparse map parser** (`pax_sparse_map`, the `GNU.sparse.map` record).  For every non-empty list of pairs of decimal
+numbers (each a non-empty digit string below the bound of `parse_uint`, leading zeros allowed) the value
+`off,num,off,num,…` is parsed into exactly those pairs, in order — no pair lost, merged or reordered, for maps of any length.
+(Malformed values — a missing number, a trailing comma, other characters — are refused; that part is exercised, not proved.)
+-/
+theorem pax_sparse_map_spec (l : List (Bytes × Bytes)) (hne : l ≠ []) (hd : ∀ p ∈ l, IsDec p.1 ∧ IsDec p.2) :
+    paxSparseMap (renderMap l) = some (l.map fun p => (decVal p.1, decVal p.2)) :=
+  paxSparseMap_spec l hne hd
+
 /-! ## sparse files (`iterator.c`) -/
 
 /--
@@ -707,6 +759,31 @@ theorem fixpoint_idempotent (img : ImgData) (t t2 : List TNode) (d2 : List (List
   obtain ⟨rfl, rfl⟩ := Prod.mk.inj (Option.some.inj h2)
   exact ⟨rfl, h1⟩
 
+/-! ## archives that end inside a member (`sqfs_istream_skip`, /repo 1ef571c) -/
+
+/--
+**A cut inside an extension record's padding or inside skipped data is an error, never a clean end.**  For every stream:
+(1) `record_to_memory` (GNU 'L'/'K' and PAX 'x' payloads) fails unless the payload *and* its padding to the next 512-byte
+boundary are there; (2) the directory iterator's `next` fails — it does not report the end of the archive — when fewer bytes are
+left than the rest of the previous member's record and padding that it has to skip (a member whose data or padding is cut, an
+unknown record that is cut), whatever the bytes are and however many entries were delivered before.
+-/
+theorem cut_record_is_error (s : Bytes) (size : Nat) (cfg : ReadCfg) (want f skip : Nat) (acc : List IterEntry) :
+    (s.length < size + padding size → recordToMemory s size = none) ∧
+    (s.length < skip → iterLoop cfg want (f + 1) s skip acc = (acc, .err)) := by
+  constructor
+  · intro h
+    unfold recordToMemory istreamSkip
+    by_cases h1 : s.length < size
+    · rw [if_pos h1]
+    · rw [if_neg h1]
+      have : (s.drop size).length < padding size := by rw [List.length_drop]; omega
+      rw [if_pos this]
+  · intro h
+    rw [iterLoop]
+    unfold istreamSkip
+    rw [if_pos h]
+
 /-! ## sqfs2tar: hard links (`lib/sqfs/src/io/dir_hl.c` on top of `bin/sqfs2tar/src/iterator.c`) -/
 
 /--
@@ -871,6 +948,12 @@ example : IsHdr (hdrBlock (field 100 ((ascii "././@LongLink").take 99)) 0o644 0 
   ext_isHdr ⟨[], 0, 0, 0, 0, 0, 0, 0, false⟩ (ascii "a/long/name") 76 (ascii "././@LongLink") (by decide)
 
 example : (paxRecord (ascii "path") (ascii "x/y")) = ascii "12 path=x/y\n" := by decide
+-- `pax_number_exact_or_error`: the largest accepted value, the smallest refused one, a fractional mtime, leading zeros
+example : parseUint (ascii "18446744073709551609") = some (18446744073709551609, 20) ∧ parseUint (ascii "18446744073709551610") = none ∧
+    parseInt (ascii "1542905892.5") = some 1542905892 ∧ parseInt (ascii "-000000000000000000000000017,") = some (-17) := by decide
+-- `pax_sparse_map_spec`: the hypotheses hold for a real map, and `renderMap` is the record's syntax
+example : renderMap [(ascii "10", ascii "3"), (ascii "020", ascii "2")] = ascii "10,3,020,2" ∧ IsDec (ascii "020") ∧ decVal (ascii "020") = 20 := by
+  refine ⟨by decide, ⟨by decide, by decide, by decide⟩, by decide⟩
 -- `hardlink_filter_spec` on a listing with a directory, three names of inode 7 and one other file: the first name in listing
 -- order stays a file, the later ones point to it
 set_option maxRecDepth 100000 in
